@@ -8,7 +8,7 @@ from __future__ import annotations
 import ast
 
 from ..fold import CannotFold, Folder, module_analyzer, need
-from ..interp import Analyzer, State, analyze, truth
+from ..interp import order_facts, Analyzer, State, analyze, truth
 from ..model import AnalysisError, FuncInfo, Model
 from ..report import Ctx, where
 from ..terms import NONE, show, walk
@@ -90,6 +90,10 @@ class Tables:
                 continue
             if name == "memcpy":
                 src = e.args[1]
+                # &TABLE[0] and TABLE are the same address
+                if src[0] == "call" and callee_name(src) == "__addr__" and len(src[2]) == 1 and src[2][0][0] == "sub" \
+                        and src[2][0][2] == ("const", 0):
+                    src = src[2][0][1]
                 if src[0] != "global" or src[2] not in self.module_tables:
                     raise AnalysisError(f"{MOD}._Quoter.__init__: memcpy from {show(src)}, not a folded module table")
                 tabs[dst[2]] = set(self.module_tables[src[2]])
@@ -198,7 +202,7 @@ class CQuoter:
             d1, d2 = x[2]
             digits_ok = callee_name(d1) == "PyUnicode_READ" and callee_name(d2) == "PyUnicode_READ" and \
                 d2[2][2] == ("binop", "Add", d1[2][2], ("const", 1))
-            look = any(k[0] == "cmp" and k[1] == "LtE" and v and k[2] == d1[2][2] for k, v in st.facts.items())
+            look = any(op == "LtE" and a == d1[2][2] for op, a, _b in order_facts(st.facts))
             if name == "_write_pct":
                 ctx.ob(rule, q, cons, valid and digits_ok and look,
                        "escape re-emitted without validation of both hex digits / look-ahead bound", w,
@@ -481,8 +485,40 @@ class CQuoter:
                 unflagged = [b for b in back if b.env.get(fl[2]) == fl]
                 ok = ok_src and safe_back and bool(unflagged)
                 why = f"flag sources {[show(x) for x in srcs]}, {len(unflagged)} unflagged iteration state(s) all under `< 128 and bit_at(safe)`"
+            if not flags:
+                # for-else idiom: the return sits in the `else` of a loop over range(length) that is left by `break` as soon
+                # as a unit is not literal-safe, so it is reached only when every iteration ran to its end
+                ok, why = self._skip_for_else(r, node)
             ctx.ob(rule, q, "return val (skip)", ok, "the unscanned input is returned without every unit being tested against "
                    "`< 128` and the safe table: " + why, where(fi, node), sample=why)
+
+    def _skip_for_else(self, r, node):
+        import ast as _ast
+        loop = None
+        n = node
+        while getattr(n, "_parent", None) is not None:
+            p = n._parent
+            if isinstance(p, _ast.For) and any(n is x for x in p.orelse):
+                loop = p
+                break
+            n = p
+        if loop is None:
+            return False, "no flag and not in the else branch of a scanning loop"
+        lids = [lid for lid, nd in r.loops.items() if nd is loop]
+        if not lids:
+            return False, "scanning loop not analysed"
+        back = r.backedges.get(lids[0], [])
+        if not back:
+            return False, "the scanning loop has no iteration that runs to its end"
+
+        def safe(b):
+            below = any(op == "Lt" and x == ("const", 128) and callee_name(a) == "PyUnicode_READ" for op, a, x in order_facts(b.facts))
+            in_table = any(callee_name(k) == "bit_at" and fv for k, fv in b.facts.items())
+            return below and in_table
+        ok = all(safe(b) for b in back)
+        rng = loop.iter
+        full = isinstance(rng, _ast.Call) and isinstance(rng.func, _ast.Name) and rng.func.id == "range" and len(rng.args) == 1
+        return ok and full, f"for-else over range(length): {len(back)} completed-iteration state(s) all under `< 128 and bit_at(safe)`"
 
     # ------------------------------------------------------------------
     def policy(self, cfg):
